@@ -64,7 +64,9 @@ func (g *gen) attrList(allowNested bool) string {
 }
 
 var fieldTypes = []string{"int", "string", "string(5)", "string(2..10)", "decimal(10.2)", "bool", "date", "int?", "string(3..)?",
-	"T0", "A0.T0", "sequence of string", "set of T0", "sequence of A0.T0", "set of int?", "datetime", "float", "uuid", "bytes"}
+	"T0", "A0.T0", "sequence of string", "set of T0", "sequence of A0.T0", "set of int?", "datetime", "float", "uuid", "bytes",
+	// machine types (a bit-width constraint, for the integers with a range) and the remaining size forms
+	"int32", "int64", "float32", "float64", "int32?", "sequence of int64", "int(5)", "bytes(16)", "string(8..)", "decimal(5)", "date?", "any"}
 
 func (g *gen) types(ai int) {
 	// every app has T0 so that references resolve
@@ -96,9 +98,27 @@ func (g *gen) types(ai int) {
 		g.line(2, []string{"int", "sequence of T0", "set of A0.T0", "T0", "A0.T0", "string"}[g.r.Intn(6)])
 	}
 	if g.r.Chance(1, 3) {
-		g.line(1, "!union Un:")
+		g.line(1, "!union Un"+g.attrList(false)+":")
 		g.line(2, "T0")
 		g.line(2, "string")
+		if g.r.Bool() {
+			g.line(2, "int64")
+		}
+	}
+	// views: parameters, a declared or an inferred return type, an expression
+	if g.r.Chance(1, 2) {
+		ret := []string{" -> T0", " -> sequence of T0", " -> A0.T0", "", ""}[g.r.Intn(5)]
+		g.line(1, fmt.Sprintf("!view vw%d(p <: T0, n <: %s)%s%s:", ai, []string{"int", "string?", "int64"}[g.r.Intn(3)], ret, g.attrList(false)))
+		if ret == "" && g.r.Bool() {
+			g.line(2, "p -> (:") // no declared and no inferred return type: the compiled view has none
+		} else {
+			g.line(2, "p -> <T0>(:")
+		}
+		g.line(3, fmt.Sprintf("id = p.id + %d", g.r.Intn(9)))
+		g.line(2, ")")
+		if g.r.Bool() {
+			g.line(1, fmt.Sprintf("!view abs%d(a <: int) -> %s [~abstract]", ai, []string{"int", "string", "set of T0"}[g.r.Intn(3)]))
+		}
 	}
 }
 
